@@ -397,7 +397,9 @@ func c14R7(p *core.Prog, r *core.Report) {
 	r.Rule(rule, "text COUNT/RCOUNT n reach the wire as n-1 for n>0 (n otherwise); results render Count+1 and Rcount+1", 6)
 	if fn := mustFunc(p, r, "protocol.(*TextCommandConverter).ConvertTextLockAndUnLockCommand"); fn != nil {
 		ex := core.NewExplorer(p, core.Hooks{
-			Track: func(x *core.X, a core.Atom) bool { return strings.HasPrefix(a.R, "Atoi(") || strings.HasPrefix(a.L, "Atoi(") },
+			Track: func(x *core.X, a core.Atom) bool {
+				return strings.HasPrefix(a.R, "Atoi(") || strings.HasPrefix(a.L, "Atoi(")
+			},
 			Instr: func(x *core.X) {
 				st, ok := x.Ins.(*ssa.Store)
 				if !ok || !x.Top() {
